@@ -7,7 +7,7 @@ theorem ghE_spec (mem : List Region) (tp h : Nat) (s : State) (ctx : Ctx mem tp 
     (hv21 : vreg s 21 = y) (hy : y < 2 ^ 128) (htp : tp < 2 ^ 64)
     (hwr : writeMem mem tp (lanes 8 16 (rb128 y)) = .ok mem') :
     ∃ s', execList eCode s = .ok s' ∧ s'.mem = mem' := by
-  obtain ⟨s2, hrun2, vo2, lt2, val2⟩ := rb_spec 16 21 1 2 rfl (Or.inr (Or.inl ⟨rfl, rfl, rfl⟩)) s ctx.lenV ctx.v22 ctx.v23 ctx.v24
+  obtain ⟨s2, hrun2, vo2, lt2, val2⟩ := rb_spec 16 21 1 2 rfl (Or.inl ⟨by decide, rfl, rfl⟩) s ctx.lenV ctx.v22 ctx.v23 ctx.v24
   have h21 : vreg s2 21 = rb128 y := by
     rw [← lane128_0_of_lt _ lt2, val2 0 (by decide), hv21, lane128_0_of_lt _ hy]
   have hg3 : greg s2 3 = tp := by show s2.gpr.getD 3 0 = _; rw [vo2.gpr]; exact ctx.g3
